@@ -574,6 +574,9 @@ func (o *vcOracle) advance(st vsStep, c vsConc) {
 		o.sessions = append(o.sessions, s)
 		o.open[a.W] = s
 	case "write":
+		if st.Res != "ok" {
+			return // a refused write commits nothing
+		}
 		var a vsWriteArgs
 		_ = json.Unmarshal(st.Args, &a)
 		s := o.open[a.W]
